@@ -4,6 +4,7 @@ package main
 import (
 	"verif/checks/c02"
 	"verif/checks/c03"
+	"verif/checks/c08"
 	"verif/checks/c09"
 	"verif/checks/c12"
 	"verif/checks/c13"
@@ -14,6 +15,7 @@ func main() {
 	ev.Main(map[string]*ev.Check{
 		"C02": c02.Check,
 		"C03": c03.Check,
+		"C08": c08.Check,
 		"C09": c09.Check,
 		"C12": c12.Check,
 		"C13": c13.Check,
